@@ -153,6 +153,10 @@ impl AssetCategorizer {
                         }
                     }
                 }
+                // a bundle that holds no asset at all (no policy, or only policies without assets) makes this a pure-ADA UTxO
+                if !free_utxo_to_assets.contains_key(&current_utxo_index) {
+                    free_ada_utxos.push((current_utxo_index.clone(), utxo.output.amount.coin.clone()));
+                }
             } else {
                 free_ada_utxos.push((current_utxo_index.clone(), utxo.output.amount.coin.clone()));
             }
